@@ -243,7 +243,7 @@ func xJobs(rng *c.Rng, n int, huge bool) (cfs []XCfg, opss [][][]any, views [][]
 		if cf.HasMax && uint64(cf.Max) < bound {
 			bound = uint64(cf.Max)
 		}
-		if bound > 2048 && (cf.CapMax || cf.Alloc) { // reserving ~4GiB is budgeted (fixed witnesses below)
+		if bound > 2048 && (cf.CapMax || cf.Alloc || cf.Shared) { // reserving ~4GiB is budgeted (fixed witnesses below)
 			cf.Limit, bound = 1000, 1000
 			if cf.HasMax && uint64(cf.Max) < bound {
 				bound = uint64(cf.Max)
@@ -299,7 +299,7 @@ func xJobs(rng *c.Rng, n int, huge bool) (cfs []XCfg, opss [][][]any, views [][]
 				tp := cf.Above >> 16
 				ds := []uint64{0, 1, 1, 1, 2, 3, bound - pg, bound - pg + 1, bound - pg - 1, tp - pg, tp - pg + 1, 65536, 1 << 31, 1<<32 - 1, 1<<32 - pg}
 				d := uint64(uint32(rng.Pick(ds)))
-				if d != 0 && pg+d <= bound && pg+d > 2048 && !huge {
+				if d != 0 && pg+d <= bound && pg+d > 2048 { // big sizes only in the fixed witnesses below
 					d = uint64(rng.Intn(3))
 				}
 				name := "hgrow"
@@ -347,8 +347,10 @@ func xJobs(rng *c.Rng, n int, huge bool) (cfs []XCfg, opss [][][]any, views [][]
 	if huge {
 		// the 65536-page boundary for the new flavours
 		top := uint64(1<<32 - 1)
-		tail := [][]any{{"pages"}, {"gsize"}, {"size"}, {"read", uint64(1), top}, {"read", uint64(8), top - 7}, {"read", uint64(2), top},
-			{"gload", top}, {"gstore", top, uint64(0x5a)}, {"read", uint64(1), top}, {"hgrow", uint64(1)}, {"ggrow", uint64(1)}, {"gsize"}, {"pages"}}
+		// accesses first, memory.size last: at 65536 pages the compiler's memory.size is 0 for every flavour (the 32-bit load of F12),
+		// while guest accesses of shared and of imported memories use a 64-bit length and must work
+		tail := [][]any{{"pages"}, {"size"}, {"read", uint64(1), top}, {"read", uint64(8), top - 7}, {"read", uint64(2), top},
+			{"gload", top}, {"gstore", top, uint64(0x5a)}, {"read", uint64(1), top}, {"gload", top}, {"hgrow", uint64(1)}, {"ggrow", uint64(1)}, {"pages"}, {"gsize"}, {"gsize"}}
 		alt := func(n int) []int {
 			v := make([]int, n)
 			for i := range v {
@@ -365,6 +367,16 @@ func xJobs(rng *c.Rng, n int, huge bool) (cfs []XCfg, opss [][][]any, views [][]
 		// (c) shared with an allocator that refuses once (request 2) and then agrees: reaches 65536 at the second attempt
 		opsc := append([][]any{{"ggrow", uint64(65534)}, {"ggrow", uint64(1)}, {"gsize"}, {"hgrow", uint64(1)}}, tail...)
 		add(XCfg{Cfg: Cfg{Min: 1, HasMax: true, Max: 65536, Limit: 65536, Alloc: true}, Shared: true, Threads: true, Imported: true, Mask: 4}, opsc, alt(len(opsc)), true)
+		// (d) unshared, agreeing allocator, imported, up to 65536: every access at the top goes through the IMPORTER first (64-bit
+		// length in compiled code); the exporter's own accesses (local unshared memory: F12) come last
+		opsd := append([][]any{{"ggrow", uint64(65534)}, {"hgrow", uint64(1)}}, tail...)
+		opsd = append(opsd, []any{"gload", top}, []any{"gstore", top, uint64(0x33)})
+		vd := make([]int, len(opsd))
+		for i := range vd {
+			vd[i] = 1
+		}
+		vd[len(vd)-1], vd[len(vd)-2], vd[len(vd)-3] = 0, 0, 0
+		add(XCfg{Cfg: Cfg{Min: 1, HasMax: true, Max: 65536, Limit: 65536, Alloc: true}, Imported: true}, opsd, vd, true)
 	}
 	return
 }
